@@ -1285,3 +1285,15 @@ package iavl
 //@   ensures [one-new-version] err == nil ==> calls("MutableTree).SaveVersion$") == 1
 //@   ensures [missing-key-refused-before-commit] !allok("MutableTree).Remove$", 1) ==> err != nil && calls("MutableTree).SaveVersion$") == 0
 //@   modifies *
+
+// ---------------------------------------------------------------- export.go: an export holds its version against pruning until it is closed (C04)
+// Close gives the hold back once: only while the exporter still refers to its tree, and afterwards it refers to
+// none — a second Close (Close is documented as repeatable) cannot release the hold of another export.
+//@ func (*Exporter).Close(e)
+//@   props C04
+//@   nosafety
+//@   requires e != nil
+//@   callsite nodeDB).decrVersionReaders [released-only-while-held] e.tree != nil && arg0 == e.tree.ndb && arg1 == e.tree.version
+//@   ensures [at-most-one-release] calls("nodeDB).decrVersionReaders") <= 1
+//@   ensures [no-longer-holding] e.tree == nil
+//@   modifies *
